@@ -156,7 +156,8 @@ def macLoop (P : Prims) (s : Server) (body macRx : Bytes) (nowHour : Int) (nowNs
     else macLoop P s body macRx nowHour nowNs rest f found
 
 /-- `serverHandshake.parseClientHandshake(filter, resp)`; `nowHour = getEpochHour()`,
-    `nowNs` = the `time.Now()` handed to the replay filter -/
+    `nowNs` = the clock read **under the replay filter's lock** (`ReplayFilter.TestAndSetNow`), so the filter
+    sees its clock readings in lock order -/
 def parseClientHandshake (P : Prims) (s : Server) (f : RF.Filter) (nowHour nowNs : Int) (resp : Bytes) :
     Server × RF.Filter × ServerResult :=
   if resp.length < clientMinHandshakeLength then (s, f, .err .markNotFoundYet) else
